@@ -298,5 +298,219 @@ theorem rescale_rat (f : Mat Rat K) (old new : Nat → Rat) (i j : Nat) (hi : i 
 
 end exact
 
+/-! ### (3) structural theorems: any carrier, no laws beyond the ones named -/
+
+section structural
+variable {α : Type} [Inhabited α] [Arith α] [Logs α] {K : Nat}
+
+/-- the operation tree of the one-step route: `-∞` where the background is zero, `log2 (x / f)`
+    elsewhere -/
+theorem intoScoring_get (m : Mat α K) (bg : Nat → α) (i j : Nat) (hi : i < m.rows) (hj : j < K) :
+    (intoScoring m bg).get i j =
+      if Arith.beq (bg j) zero then negInf else log2 (div (m.get i j) (bg j)) := by
+  simp [intoScoring, hi, hj]
+
+/-- the operation tree of the two-step route in any base -/
+theorem twoStep_get (m : Mat α K) (bg : Nat → α) (base : α) (i j : Nat) (hi : i < m.rows)
+    (hj : j < K) :
+    (toScoringWithBase (toWeight m bg) base).get i j =
+      logBase base (if Arith.beq (bg j) zero then zero else div (m.get i j) (bg j)) := by
+  simp [toScoringWithBase, toWeight, hi, hj]
+
+/-- the base dispatch: `log2` for 2.0, `log10` for 10.0, `ln x / ln base` otherwise -/
+theorem logBase_cases (base x : α) :
+    (Arith.beq base (Arith.ofNat 2) = true → logBase base x = log2 x) ∧
+    (Arith.beq base (Arith.ofNat 2) = false → Arith.beq base (Arith.ofNat 10) = true →
+        logBase base x = log10 x) ∧
+    (Arith.beq base (Arith.ofNat 2) = false → Arith.beq base (Arith.ofNat 10) = false →
+        logBase base x = div (ln x) (ln base)) := by
+  unfold logBase
+  refine ⟨fun h => by simp [h], fun h h' => by simp [h, h'], fun h h' => by simp [h, h']⟩
+
+/-- **one-step and two-step scoring are the same operation tree** `log2 (x / f)`: cell for cell
+    the same expression over any carrier, given only that `2.0 == 2.0` and `log2 0.0 = -∞` (the
+    value the zero-background convention of `to_weight` turns into under `log2`) -/
+theorem oneStep_eq_twoStep (h2 : Arith.beq (Arith.ofNat 2 : α) (Arith.ofNat 2) = true)
+    (hlog : log2 (zero : α) = negInf) (m : Mat α K) (bg : Nat → α) :
+    intoScoring m bg = toScoring (toWeight m bg) := by
+  apply Mat.ext
+  · simp [intoScoring, toScoring, toScoringWithBase, toWeight]
+  · intro i j hi hj
+    have hi' : i < m.rows := by simpa [intoScoring] using hi
+    unfold toScoring
+    rw [intoScoring_get m bg i j hi' hj, twoStep_get m bg _ i j hi' hj, (logBase_cases _ _).1 h2]
+    by_cases hb : Arith.beq (bg j) zero = true
+    · simp [hb, hlog]
+    · simp [hb]
+
+/-- where the background is not zero the two routes are the same tree with no law at all -/
+theorem oneStep_eq_twoStep_cell (h2 : Arith.beq (Arith.ofNat 2 : α) (Arith.ofNat 2) = true)
+    (m : Mat α K) (bg : Nat → α) (i j : Nat) (hi : i < m.rows) (hj : j < K)
+    (hb : Arith.beq (bg j) zero = false) :
+    (intoScoring m bg).get i j = log2 (div (m.get i j) (bg j)) ∧
+    (toScoring (toWeight m bg)).get i j = log2 (div (m.get i j) (bg j)) := by
+  unfold toScoring
+  rw [intoScoring_get m bg i j hi hj, twoStep_get m bg _ i j hi hj, (logBase_cases _ _).1 h2]
+  simp [hb]
+
+/-- **`-∞` exactly where the background is zero**, structurally: the constant `NEG_INFINITY` is
+    stored in the cells of a zero-background column and in no other cell (every other cell holds
+    `log2 (x / f)`) -/
+theorem negInf_where_bg_zero (m : Mat α K) (bg : Nat → α) (i j : Nat) (hi : i < m.rows) (hj : j < K) :
+    (Arith.beq (bg j) zero = true → (intoScoring m bg).get i j = negInf) ∧
+    (Arith.beq (bg j) zero = false → (intoScoring m bg).get i j = log2 (div (m.get i j) (bg j))) := by
+  rw [intoScoring_get m bg i j hi hj]
+  exact ⟨fun h => by simp [h], fun h => by simp [h]⟩
+
+/-- … and as an equivalence on values, for a carrier in which a logarithm is `-∞` only at zero and
+    a quotient by a non-zero number is zero only for a zero numerator (both laws named, both true
+    of the reals): a cell with a non-zero frequency scores `-∞` iff its background is zero -/
+theorem negInf_iff_bg_zero
+    (hlog : ∀ y : α, log2 y = negInf → y = zero)
+    (hdiv : ∀ x f : α, Arith.beq f zero = false → div x f = zero → x = zero)
+    (m : Mat α K) (bg : Nat → α) (i j : Nat) (hi : i < m.rows) (hj : j < K)
+    (hx : m.get i j ≠ zero) :
+    (intoScoring m bg).get i j = negInf ↔ Arith.beq (bg j) zero = true := by
+  rw [intoScoring_get m bg i j hi hj]
+  by_cases hb : Arith.beq (bg j) zero = true
+  · simp [hb]
+  · have hb' : Arith.beq (bg j) zero = false := by simpa using hb
+    simp only [hb', Bool.false_eq_true, if_false, iff_false]
+    intro h
+    exact hx (hdiv _ _ hb' (hlog _ h))
+
+end structural
+
+/-! ### (4) validation (exact) -/
+
+section validation
+variable {K : Nat}
+
+theorem bgNewLoop_ok (fs : List Rat) (s : Rat) (h : ∀ f ∈ fs, 0 ≤ f ∧ f ≤ 1) :
+    bgNewLoop fs s = .ok (s + fs.sum) := by
+  induction fs generalizing s with
+  | nil => simp [bgNewLoop]
+  | cons f fs ih =>
+    have hf := h f (by simp)
+    simp only [bgNewLoop, rat_le, rat_zero, rat_one, hf.1, hf.2, decide_true, Bool.and_self,
+      Bool.not_true, Bool.false_eq_true, if_false, rat_add]
+    rw [ih _ (fun g hg => h g (by simp [hg]))]
+    simp only [List.sum_cons]
+    congr 1; ring
+
+theorem bgNewLoop_err (fs : List Rat) (s : Rat) (h : ∃ f ∈ fs, ¬ (0 ≤ f ∧ f ≤ 1)) :
+    bgNewLoop fs s = .error () := by
+  induction fs generalizing s with
+  | nil => simp at h
+  | cons f fs ih =>
+    by_cases hf : 0 ≤ f ∧ f ≤ 1
+    · simp only [bgNewLoop, rat_le, rat_zero, rat_one, hf.1, hf.2, decide_true, Bool.and_self,
+        Bool.not_true, Bool.false_eq_true, if_false]
+      apply ih
+      rcases h with ⟨g, hg, hn⟩
+      rcases List.mem_cons.mp hg with rfl | hg'
+      · exact absurd hf hn
+      · exact ⟨g, hg', hn⟩
+    · have : (decide (0 ≤ f) && decide (f ≤ 1)) = false := by
+        by_cases h0 : 0 ≤ f
+        · have : ¬ f ≤ 1 := fun h1 => hf ⟨h0, h1⟩
+          simp [h0, this]
+        · simp [h0]
+      simp [bgNewLoop, this]
+
+/-- **`Background::new` accepts exactly the vectors with every entry in [0,1] and sum one** -/
+theorem bgNew_ok_iff (fs : List Rat) :
+    bgNew fs = .ok fs ↔ (∀ f ∈ fs, 0 ≤ f ∧ f ≤ 1) ∧ fs.sum = 1 := by
+  by_cases h : ∀ f ∈ fs, 0 ≤ f ∧ f ≤ 1
+  · unfold bgNew
+    rw [bgNewLoop_ok fs _ h]
+    by_cases hs : fs.sum = 1
+    · simp [hs]; exact h
+    · simp [hs]
+  · have h' : ∃ f ∈ fs, ¬ (0 ≤ f ∧ f ≤ 1) := by
+      simpa [Classical.not_forall] using h
+    unfold bgNew
+    rw [bgNewLoop_err fs _ h']
+    simp [h]
+
+/-- … and rejects (`InvalidData`) everything else -/
+theorem bgNew_err_iff (fs : List Rat) :
+    bgNew fs = .error () ↔ ¬ ((∀ f ∈ fs, 0 ≤ f ∧ f ≤ 1) ∧ fs.sum = 1) := by
+  rw [← bgNew_ok_iff]
+  unfold bgNew
+  cases bgNewLoop fs zero with
+  | error e => simp
+  | ok s => by_cases hs : Arith.beq s one = true <;> simp [hs]
+
+/-- **`FrequencyMatrix::new` accepts exactly the matrices whose every row is within 0.01 of one** -/
+theorem freqNew_ok_iff (data : Mat Rat K) :
+    freqNew data = .ok data ↔
+      ∀ i, i < data.rows → |((List.range K).map (data.get i)).sum - 1| < 1 / 100 := by
+  unfold freqNew
+  have key : (List.range data.rows).all
+      (fun i => Arith.lt (Arith.abs (sub (sumRange K (data.get i)) one)) hundredth) = true ↔
+      ∀ i, i < data.rows → |((List.range K).map (data.get i)).sum - 1| < 1 / 100 := by
+    rw [List.all_eq_true]
+    constructor
+    · intro h i hi
+      have := h i (List.mem_range.mpr hi)
+      rw [sumRange_rat] at this
+      simpa using this
+    · intro h i hi
+      have := h i (List.mem_range.mp hi)
+      rw [sumRange_rat]
+      simpa using this
+  by_cases h : (List.range data.rows).all
+      (fun i => Arith.lt (Arith.abs (sub (sumRange K (data.get i)) one)) hundredth) = true
+  · simp only [h, if_true, true_iff]; exact key.mp h
+  · simp only [h, Bool.false_eq_true, if_false]
+    constructor
+    · intro h'; cases h'
+    · intro h'; exact absurd (key.mpr h') h
+
+theorem freqNew_err_iff (data : Mat Rat K) :
+    freqNew data = .error () ↔
+      ∃ i, i < data.rows ∧ ¬ |((List.range K).map (data.get i)).sum - 1| < 1 / 100 := by
+  have := freqNew_ok_iff data
+  unfold freqNew at *
+  by_cases h : (List.range data.rows).all
+      (fun i => Arith.lt (Arith.abs (sub (sumRange K (data.get i)) one)) hundredth) = true
+  · simp only [h, if_true, true_iff] at this
+    simp only [h, if_true]
+    constructor
+    · intro h'; cases h'
+    · rintro ⟨i, hi, hn⟩; exact absurd (this i hi) hn
+  · simp only [h, Bool.false_eq_true, if_false] at this ⊢
+    simp only [true_iff]
+    apply Classical.byContradiction
+    intro hn
+    have h' := this.mpr (fun i hi => by
+      apply Classical.byContradiction
+      intro hlt
+      exact hn ⟨i, hi, hlt⟩)
+    cases h'
+
+/-- what `to_freq` produces is a valid frequency matrix (every row total non-zero) -/
+theorem toFreq_valid (c : Mat Nat K) (p : Nat → Rat) (ht : ∀ i, i < c.rows → rowTotal c p i ≠ 0) :
+    freqNew (toFreq c p) = .ok (toFreq c p) := by
+  rw [freqNew_ok_iff]
+  intro i hi
+  rw [toFreq_rows] at hi
+  rw [← sumRange_rat, freq_row_sum c p i hi (ht i hi)]
+  norm_num
+
+/- non-vacuity -/
+example : bgNew [(1 : Rat) / 4, 1 / 4, 1 / 2, 0, 0] = .ok [1 / 4, 1 / 4, 1 / 2, 0, 0] := by
+  rw [bgNew_ok_iff]; refine ⟨?_, by norm_num⟩
+  intro f hf
+  simp only [List.mem_cons, List.mem_nil_iff, or_false] at hf
+  rcases hf with rfl | rfl | rfl | rfl | rfl <;> norm_num
+example : bgNew [(3 : Rat) / 4, 1 / 2, -1 / 4, 0, 0] = .error () := by
+  rw [bgNew_err_iff]; intro hh; have := hh.1 (-1 / 4) (by simp); norm_num at this
+example : bgNew [(1 : Rat) / 4, 1 / 4, 1 / 4, 0, 0] = .error () := by
+  rw [bgNew_err_iff]; intro hh; have := hh.2; norm_num at this
+
+end validation
+
 end C09
 end LMV
